@@ -1,0 +1,20 @@
+//go:build verif
+
+package light
+
+import (
+	"github.com/oasisprotocol/oasis-core/go/p2p/rpc"
+)
+
+// SetPeersForVerif makes all providers of the light client use the given RPC client and peer
+// manager, and lets each of them pick a peer from that manager, so that a test harness can play
+// the remote (untrusted) peers.
+func (c *Client) SetPeersForVerif(rc rpc.Client, mgr rpc.PeerManager) {
+	for _, p := range c.providers {
+		p.l.Lock()
+		p.rc = rc
+		p.p2pMgr = mgr
+		p.l.Unlock()
+		p.refreshPeer()
+	}
+}
